@@ -181,3 +181,112 @@ Section SortFacts.
     cbn [filter]. fold (sort_items key l). rewrite IH. reflexivity.
   Qed.
 End SortFacts.
+
+(* ---- dedup: no two output items are the same; nothing new; everything is represented; order kept ---- *)
+Section DedupFacts.
+  Context {A : Type} (same : A -> A -> bool).
+  Hypothesis same_refl : forall x, same x x = true.
+
+  Inductive subseq : list A -> list A -> Prop :=
+  | sub_nil : subseq [] []
+  | sub_skip : forall x l1 l2, subseq l1 l2 -> subseq l1 (x :: l2)
+  | sub_keep : forall x l1 l2, subseq l1 l2 -> subseq (x :: l1) (x :: l2).
+
+  Lemma dedup_from_subseq l : forall seen, subseq (dedup_from same seen l) l.
+  Proof.
+    induction l as [|x l IH]; intros seen; cbn; [constructor|].
+    destruct (existsb (same x) seen); [apply sub_skip|apply sub_keep]; apply IH.
+  Qed.
+
+  (* no kept item is the same as a seen one or as an earlier kept one *)
+  Inductive fresh_list : list A -> list A -> Prop :=
+  | fl_nil : forall seen, fresh_list seen []
+  | fl_cons : forall seen x l, existsb (same x) seen = false -> fresh_list (x :: seen) l -> fresh_list seen (x :: l).
+
+  Lemma dedup_from_fresh l : forall seen, fresh_list seen (dedup_from same seen l).
+  Proof.
+    induction l as [|x l IH]; intros seen; cbn; [constructor|].
+    destruct (existsb (same x) seen) eqn:E; [apply IH|]. constructor; [exact E|apply IH].
+  Qed.
+
+  Lemma fresh_list_weaken l : forall seen seen', (forall y, In y seen' -> In y seen) -> fresh_list seen l -> fresh_list seen' l.
+  Proof.
+    induction l as [|x l IH]; intros seen seen' Hsub H; [constructor|].
+    inversion H as [|? ? ? Hx Hl]; subst. constructor.
+    - destruct (existsb (same x) seen') eqn:E; [|reflexivity].
+      apply existsb_exists in E. destruct E as (y & Hy & Hs).
+      assert (existsb (same x) seen = true) as C by (apply existsb_exists; exists y; auto). congruence.
+    - eapply IH; [|exact Hl]. intros y [->|Hy]; [left; reflexivity|right; auto].
+  Qed.
+
+  (* pairwise: for i < j in the output, same (out[j]) (out[i]) = false *)
+  Lemma fresh_list_pairwise seen l : fresh_list seen l ->
+    forall pre x post, l = pre ++ x :: post -> forall y, In y pre \/ In y seen -> same x y = false.
+  Proof.
+    induction 1 as [seen|seen a l Ha Hl IH]; intros pre x post E y Hy.
+    - destruct pre; discriminate.
+    - destruct pre as [|p pre]; cbn in E; inversion E; subst.
+      + destruct Hy as [[]|Hy]. destruct (same x y) eqn:S; [|reflexivity].
+        assert (existsb (same x) seen = true) as C by (apply existsb_exists; exists y; auto). congruence.
+      + apply (IH pre x post eq_refl y). destruct Hy as [[->|Hy]|Hy]; [right; left; reflexivity|left; exact Hy|right; right; exact Hy].
+  Qed.
+
+  Theorem dedup_no_two_same l pre x post y :
+    dedup_items same l = pre ++ x :: post -> In y pre -> same x y = false.
+  Proof.
+    intros E Hy. eapply (fresh_list_pairwise [] (dedup_items same l)); [apply dedup_from_fresh|exact E|left; exact Hy].
+  Qed.
+
+  (* every input item is represented by an output item that is the same *)
+  Lemma dedup_from_represents l : forall seen x, In x l ->
+    (exists y, In y seen /\ same x y = true) \/ (exists y, In y (dedup_from same seen l) /\ (y = x \/ same x y = true)).
+  Proof.
+    induction l as [|a l IH]; intros seen x Hx; [destruct Hx|].
+    cbn. destruct Hx as [->|Hx].
+    - destruct (existsb (same x) seen) eqn:E.
+      + left. apply existsb_exists in E. destruct E as (y & Hy & Hs). exists y; auto.
+      + right. exists x. split; [left; reflexivity|left; reflexivity].
+    - destruct (existsb (same a) seen) eqn:E.
+      + apply IH; exact Hx.
+      + destruct (IH (a :: seen) x Hx) as [(y & [->|Hy] & Hs)|(y & Hy & Hs)].
+        * right. exists y. split; [left; reflexivity|right; exact Hs].
+        * left. exists y; auto.
+        * right. exists y. split; [right; exact Hy|exact Hs].
+  Qed.
+
+  Theorem dedup_represents l x : In x l -> exists y, In y (dedup_items same l) /\ (y = x \/ same x y = true).
+  Proof.
+    intros Hx. destruct (dedup_from_represents l [] x Hx) as [(y & [] & _)|H]; exact H.
+  Qed.
+
+  Theorem dedup_subseq l : subseq (dedup_items same l) l.
+  Proof. apply dedup_from_subseq. Qed.
+
+  Lemma subseq_in l1 l2 : subseq l1 l2 -> forall x, In x l1 -> In x l2.
+  Proof. induction 1; intros y Hy; [destruct Hy|right; auto|destruct Hy as [->|Hy]; [left; reflexivity|right; auto]]. Qed.
+End DedupFacts.
+
+Lemma subseq_sorted {A} (key : A -> okey) l1 l2 : subseq l1 l2 -> StronglySorted (le key) l2 -> StronglySorted (le key) l1.
+Proof.
+  induction 1 as [|x l1 l2 H IH|x l1 l2 H IH]; intros Hs; [constructor| |].
+  - inversion Hs; subst. auto.
+  - inversion Hs as [|? ? Hs' Hf]; subst. constructor; [auto|].
+    rewrite Forall_forall in *. intros y Hy. apply Hf. eapply subseq_in; eauto.
+Qed.
+
+Theorem sort_for_output_facts {A} (key : A -> okey) (same : A -> A -> bool) (l : list A) :
+  let out := sort_for_output key same l in
+  (forall pre x post y, out = pre ++ x :: post -> In y pre -> same x y = false) /\
+  (forall x, In x l -> exists y, In y out /\ (y = x \/ same x y = true)) /\
+  (forall x, In x out -> In x l) /\
+  StronglySorted (le key) out /\
+  subseq out (sort_items key l).
+Proof.
+  cbv zeta. unfold sort_for_output. repeat split.
+  - intros pre x post y E Hy. eapply dedup_no_two_same; eauto.
+  - intros x Hx. apply dedup_represents. eapply Permutation_in; [apply sort_perm|exact Hx].
+  - intros x Hx. eapply Permutation_in; [apply Permutation_sym, sort_perm|].
+    eapply subseq_in; [apply dedup_subseq|exact Hx].
+  - eapply subseq_sorted; [apply dedup_subseq|apply sort_sorted].
+  - apply dedup_subseq.
+Qed.
